@@ -50,10 +50,23 @@ CHECKS["C15"] = dict(
          "zero-row item == absent item; restore only when synced; write failure probe: export of an unserialisable bundle must raise or print.",
     design_ref="5/C15", engine="Loader")
 
+CHECKS["C18"] = dict(
+    category="model_checking",
+    technique="TLA+ design model of workspace preparation (Workspace.tla) explored by TLC over all placements; strace-recorded file-system traces of real runs validated by WorkspaceTrace.tla",
+    text="TLC explores the step-by-step model of set_workspace_dir / manage_directory / the copy walk for every placement of workspace "
+         "vs input (disjoint, nested either way, identical, default and custom names, pre-populated, with/without --force) against the "
+         "clauses of C18, with the two pinned-code deviations as negative controls; every placement is also materialised on disk, lian runs "
+         "under strace -f, and each mutating system call and each before/after snapshot difference is judged by the trace specification.",
+    note="Trusts strace, the harness's path tokenisation/symlink resolution, TLC/Json; python inputs and the lang sub-command; "
+         "MPLCONFIGDIR cache allowlisted.",
+    design_ref="5/C18", engine="Workspace")
+
 NOT_YET = {
 }
 
 ENGINES = [
+    dict(name="Workspace", path="specs/Workspace.tla specs/WorkspaceTrace.tla harness/c18.py",
+         serves_properties=["C18"], kind_free_text="TLA+ design model + trace spec over strace events, TLC"),
     dict(name="Loader", path="specs/Loader.tla specs/LoaderImpl.tla specs/LoaderTrace.tla harness/c15.py harness/drive_c15.py",
          serves_properties=["C15"], kind_free_text="TLA+ contract + implementation model + trace spec, TLC"),
     dict(name="EventManager", path="specs/EventManager.tla specs/EventManagerTrace.tla harness/c17.py harness/drive_c17.py",
